@@ -53,6 +53,9 @@ class _VSelector:
         if events:
             loop._zero_polls = 0
             return events
+        if loop._before or loop._after:
+            # injections are armed for coming iterations: just let the iteration counter advance (no time passes)
+            return []
         if timeout is None:
             # would block forever: give the kernel a moment (loopback delivery is synchronous, but be safe)
             for _ in range(3):
